@@ -9,6 +9,7 @@ import vf
 
 def run(c):
     c.build_worker()
+    E.liveness(c, "LiveWf", "q" if c.quick else "t")
     stats = E.Stats()
     # (a) every well-formed stream of the bounded language: decode -> exact lists -> byte-identical re-encoding
     lines = E.enumerate_cases(c, "WfInit", "q" if c.quick else "t")
